@@ -65,6 +65,9 @@ var c07Scripts = []c07Script{
 	{"for-in over range in loop", "out := 0; for limit < 0 || out < limit { for v in range(0, 10) { out += 1 } }", func(l int64) string { return fmt.Sprintf("i%d", (l+9)/10*10) }, false},
 	{"string building", "s := \"\"; out := 0; for limit < 0 || out < limit { s = \"x\" + out; out = len(s) > 0 ? out + 1 : 0 }", func(l int64) string { return fmt.Sprintf("i%d", l) }, false},
 	{"fails after the loop", "out := 0; for i := 0; limit < 0 || i < limit; i++ { out += 1 }; bad := out + \"s\"", func(l int64) string { return fmt.Sprintf("i%d", l) }, true},
+	{"if/else then empty loop", "out := 0; if limit >= 0 { out = limit * 3 } else { if out == 0 { out = 1 } else { out = 2 }; for { } }", func(l int64) string { return fmt.Sprintf("i%d", l*3) }, false},
+	{"break then empty loop", "out := 0; if limit >= 0 { out = limit + 5 } else { for { out++; if out > 3 { break } }; for { } }", func(l int64) string { return fmt.Sprintf("i%d", l+5) }, false},
+	{"empty loops in a function", "spin := func(n) { if n > 0 { n = 1 } else { n = 2 }; for { continue } }; out := 0; if limit >= 0 { out = limit } else { spin(1) }", func(l int64) string { return fmt.Sprintf("i%d", l) }, false},
 	{"non-tail recursion inside loop", "r := func(n) { return n <= 0 ? 0 : 1 + r(n - 1) }; out := 0; for limit < 0 || out < limit { out += r(5) - 4 }", func(l int64) string { return fmt.Sprintf("i%d", l) }, false},
 }
 
